@@ -1,3 +1,5 @@
+\* regression RedactInPlace (RedactOnCopy = FALSE): TLC must report Redacted violated
+\* (the check configurations ConfStore_c11/c08/c07.cfg describe the current code: all TRUE)
 SPECIFICATION Spec
 CONSTANTS
   IfaceDeep = TRUE
